@@ -334,7 +334,15 @@ class Method(Unit):
         else:
             return None
         r = sp.rho(a, s0, m)
-        return r.re if "cos" in fns else r.im
+        if "cos" in fns:
+            return r.re
+        # Re[rho_a conj(rho_b)] does not depend on the sign convention of the phase: a sum of sin(+theta) is -Im rho
+        t0 = sel[0]
+        b = z3.simplify(z3.substitute(body, *[(ta, z3.IntVal(t0)) for ta in tapps])) if tapps else body
+        minus = z3.simplify(b + sv.zr(sp.mode(s0, sv.SV(v), m).im))
+        if (z3.is_rational_value(minus) and minus.numerator_as_long() == 0):
+            return sv.neg(r.im)
+        return r.im
 
     def replay(self, case, clause, model, seed):
         return _replay_sq(self.K, int(case[2]), clause, model, seed, nspecies=6 if case.endswith("species=6") else self.K,
